@@ -190,6 +190,12 @@ func c17hist(c *Ctx) {
 					rl.title = gen.Pick(r, []string{"n\u00e9", "\u65e5\u672c", "\u00e9", "\u00fc\u00df", "\u0416\u0443\u043a", "\U0001f600x"}) + gen.Pick(r, []string{"", "", "1", "\u00e9"})
 					c.R.Add("short_non_ascii_titles_tried", 1)
 				}
+				if r.P(5) {
+					// a title with the dotted capital I of Turkish: lower-casing turns it into a plain i, simple case folding
+					// does not; whichever way names are matched, the levels that exist keep answering to THEIR names
+					rl.title = gen.Pick(r, []string{"\u0130NFO", "\u0130nfo", "WARN\u0130NG", "P\u0130LOT", "pilot", "Pilot", "f\u0131x", "FIX"})
+					c.R.Add("titles_with_dotted_or_dotless_i_tried", 1)
+				}
 				if r.P(6) {
 					// a title that is itself wrapped in quotation marks (or is one of them twice): a title like any other,
 					// it is not the quoted spelling of the name inside
@@ -224,6 +230,10 @@ func c17hist(c *Ctx) {
 				}
 				if r.P(50) {
 					rl.treatAs = gen.Pick(r, []slog.Level{slog.ErrorLevel, slog.WarnLevel, slog.InfoLevel, slog.DebugLevel, slog.TraceLevel, slog.PanicLevel})
+					if rl.val < 0 && r.P(25) {
+						rl.treatAs = rl.val // "treated as itself" (accepted for values below zero): gated by its own value, like no entry at all
+						c.R.Add("levels_registered_as_treated_as_themselves", 1)
+					}
 					opts = append(opts, slog.RegWithTreatedAsLevel(rl.treatAs))
 					odesc = append(odesc, fmt.Sprintf("treatAs=%v", rl.treatAs))
 				}
